@@ -58,6 +58,20 @@ M = [
     ("twin-counter-loop-reversed", AES, "for i in xrange(len(self._counter) - 1, -1, -1):", "for i in reversed(xrange(len(self._counter))):", 0, "quiet", ["C16"]),
     ("twin-pad-with-bytes-literal", "bec2format/crypto.py", "return data + bytes([0x00] * pad_length)", "return data + b\"\\x00\" * pad_length", 0, "quiet", ["C06", "C03"]),
     ("twin-get_config_ndx-while-loop", BF3, None, None, 0, "quiet", ["C11"]),
+    ("twin-padding-as-bytes-n", BEC2, "+ bytes([0x00] * padding_len)  # header", "+ bytes(padding_len)  # header", 0, "quiet", ["C08", "C02"]),
+    ("twin-rename-padding_len", BEC2, "padding_len", "pad_count", "all", "quiet", ["C08"]),
+    ("twin-sentinel-literal", BF3, "directory += (0).to_bytes(1, \"big\")  # sentinel", "directory += b\"\\x00\"  # sentinel", 0, "quiet", ["C03", "C01"]),
+    ("twin-tag-id-bytes-literal", BF3, "tlv_entries += tag_id.to_bytes(1, \"big\")", "tlv_entries += bytes([tag_id])", 0, "quiet", ["C03"]),
+    ("twin-default-session-key-bytes-n", BF3, "DEFAULT_SESSION_KEY = bytes([0x00] * KEY_SIZE)", "DEFAULT_SESSION_KEY = bytes(KEY_SIZE)", 0, "quiet", ["C03", "C01", "C06"]),
+    ("twin-cfgid-unknown-via-local", CID, "            project_id = UNKNOWN if self.project is None else self.project\n            device_id = UNKNOWN if self.device is None else self.device",
+     "            device_id = UNKNOWN if self.device is None else self.device\n            project_id = UNKNOWN if self.project is None else self.project", 0, "quiet", ["C12"]),
+    ("twin-jacobi-infinity-test-order", EC, "        if not Y1 or not Z1:\n            return X2, Y2, Z2", "        if not Z1 or not Y1:\n            return X2, Y2, Z2", 0, "quiet", ["C17"]),
+    ("twin-crc-int-removed-for-int-default", BEC2, "    cur_crc = int(start_value)", "    cur_crc = start_value + 0", 0, "quiet", ["C15"]),
+    ("twin-unpack-while-1", BEC2, "        while True:\n            tlv_tag = int.from_bytes(raw_rdr.read(1), \"big\")", "        while 1:\n            tlv_tag = int.from_bytes(raw_rdr.read(1), \"big\")", 0, "quiet", ["C07", "C14"]),
+    ("twin-reader-eof-comparison-flipped", "bec2format/bytes_reader.py", "return self.tell() == self.length", "return self.length == self.tell()", 0, "quiet", ["C05", "C01"]),
+    ("twin-hex-lines-upper-first", BF3, "bf3fileobj.write(line.hex().upper() + \"\\n\")", "bf3fileobj.write((line.hex() + \"\\n\").upper())", 0, "quiet", ["C01", "C03"]),
+    ("twin-counter-init-range-forward", AES, "self._counter = [ ((initial_value >> i) % 256) for i in xrange(128 - 8, -1, -8) ]",
+     "self._counter = [ ((initial_value >> (120 - i)) % 256) for i in xrange(0, 128, 8) ]", 0, "quiet", ["C16"]),
     ("rwlock-twin-release-order", RW, "        self.__no_readers.release()\n        self.__readers_queue.release()", "        self.__readers_queue.release()\n        self.__no_readers.release()", 0, "quiet", ["C20"]),
 ]
 
